@@ -250,14 +250,22 @@ def closeStep (s : St) : St × String :=
     if s1.dbo ≤ s1.ci then ({ s1 with com := s1.tx, closed := true }, "ok")
     else ({ s1 with closed := true }, "err")
 
-def crashOK (s : St) (d : Nat) : Bool := decide (s.dur ≤ d) && decide (d ≤ s.len) && !s.ptx
+/-- what the binlog files hold after a kill that keeps the bytes up to `d`: the records ending at or before `d` that
+    the database has not consumed yet (those after its committed offset) -/
+def keptRest (s : St) (d : Nat) : List Rec := upTo d (above s.com.off s.done ++ flat s.aq ++ s.rest)
+
+/-- a kill may come at any moment (also while a commit is parked); everything up to the last Commit is on disk
+    (`dur ≤ d`), nothing beyond what was written is (`d ≤ len`), and `d` is a record boundary: the file ends with the last
+    complete record (a partial record after it is the separate flag `torn`) -/
+def crashOK (s : St) (d : Nat) : Bool :=
+  decide (s.dur ≤ d) && decide (d ≤ s.len) && decide (s.com.off + total (keptRest s d) = d)
 
 /-- process dies, binlog file keeps the records that end at or before `d` (dur ≤ d), SQLite keeps `com`; the new
     process reads the offset from the database and lets the binlog replay from there -/
 def crashStep (s : St) (d : Nat) : St :=
   { wait := s.wait, repl := s.repl, com := s.com, tx := s.com, dbo := s.com.off,
     done := upTo s.com.off s.done,
-    rest := upTo d (above s.com.off s.done ++ flat s.aq ++ s.rest),
+    rest := keptRest s d,
     len := d, dur := s.dur, ci := 0, waitQ := [], ptx := false, acked := s.acked, ackedW := s.ackedW,
     hold := false, lc := false, q := false, aq := [], aqOff := 0, closed := false, down := false }
 
